@@ -198,9 +198,14 @@ def join_with_limit(  # noqa: PLR0911
 def error_context(text: str, index: int) -> tuple[str, int, int]:
     """Return a (line, lineno, col) tuple for position `index` in `text`."""
     if not text:
-        return ("", 1, 0)
+        return ("", 1, 1)
 
     lines = text.splitlines(keepends=True)
+
+    if index >= len(text) and text.endswith("\n"):
+        # After a trailing newline, on a new, empty line.
+        return ("", len(lines) + 1, 1)
+
     cumulative_length = 0
     target_line_index = len(lines) - 1
 
